@@ -34,10 +34,11 @@ def replay():
         pts = np.concatenate([xs, np.exp(rng.uniform(np.log(xs[0]), 0, size=20))])
         for x in pts:
             vals = np.array([b.evaluate_x(x) for b in disp])
-            if abs(vals.sum() - 1) > 5e-6: out.append(f"n={len(xs)} d={d} log={log}: sum of basis functions at x={x:.3e} is {vals.sum()}")
+            cond = max(1.0, np.abs(vals).sum())        # Lebesgue function: float rounding of the sums scales with it (wide linear grids are ill-conditioned)
+            if abs(vals.sum() - 1) > 1e-9 * cond: out.append(f"n={len(xs)} d={d} log={log}: sum of basis functions at x={x:.3e} is {vals.sum()}")
             for k in range(d + 1):
                 got = sum(v * f(xj) ** k for v, xj in zip(vals, xs))
-                if abs(got - f(x) ** k) > 1e-6 * max(1, abs(f(x) ** k)): out.append(f"n={len(xs)} d={d} log={log}: monomial degree {k} not reproduced at x={x:.3e}")
+                if abs(got - f(x) ** k) > 1e-9 * max(1.0, sum(abs(v * f(xj) ** k) for v, xj in zip(vals, xs))): out.append(f"n={len(xs)} d={d} log={log}: monomial degree {k} not reproduced at x={x:.3e}")
         K = disp.get_interpolation(xs + 0.0)
         if not np.allclose(K, np.eye(len(xs)), atol=1e-9): out.append("Kronecker property")
     # target grid differing from the nodes only at very small x
